@@ -81,7 +81,8 @@ def resolve(world, r):
     if isinstance(r, str):
         return world[r]
     o = world[r[0]][selectors.ev(r[1])]
-    for sub in r[2:]:               # sub-slice of a slice (0-based, undocumented; used differentially only)
+    for sub in r[2:]:               # sub-slice of a slice (0-based, undocumented)
+        _ = (o.shape, o.size)       # a user may well have looked at the parent first: cached values must not leak
         o = o[selectors.ev(sub)]
     return o
 
@@ -138,6 +139,7 @@ def apply(pp, subs, world, act):
     """Perform one action through the real API. Returns obs = {'ok', 'exc', 'new': {name: object}, 'ret'}.
     The world dict is NOT modified; commit(world, obs) rebinds the names."""
     op = act['op']
+    held = []           # (list object handed to the call, its value before)
     try:
         if op == 'transfer':
             src, dst = resolve(world, act['src']), resolve(world, act['dst'])
@@ -180,7 +182,12 @@ def apply(pp, subs, world, act):
         elif op == 'create_solution':
             solvent = world[act['solvent']] if act['solvent'] in world else subs[act['solvent']]
             solute = [subs[x] for x in act['solute']] if isinstance(act['solute'], list) else subs[act['solute']]
-            r = pp.Container.create_solution(solute, solvent, act['name'], **act['kw'])
+            kw = {k: (list(v) if isinstance(v, list) else v) for k, v in act['kw'].items()}
+            # lists handed to the call are arguments too: they must come back unchanged, returned or raised
+            for lst in [solute] + list(kw.values()):
+                if isinstance(lst, list):
+                    held.append((lst, list(lst)))
+            r = pp.Container.create_solution(solute, solvent, act['name'], **kw)
             if isinstance(r, tuple):
                 new = {act['solvent']: r[0], act['name']: r[1]}
             else:
@@ -194,15 +201,18 @@ def apply(pp, subs, world, act):
             else:
                 new = {act['src']: r[0], act['name']: r[1]}
         elif op == 'new_container':
-            r = pp.Container(act['name'], act['max'], [(subs[x], q) for x, q in act['contents']] or None)
+            contents = [(subs[x], q) for x, q in act['contents']] or None
+            if contents:
+                held.append((contents, list(contents)))
+            r = pp.Container(act['name'], act['max'], contents)
             new = {act['name']: r}
         else:
             raise env.InternalError(f"unknown op {op}")
     except env.InternalError:
         raise
     except Exception as e:  # noqa: every library exception is an observation
-        return {'ok': False, 'exc': e, 'new': {}, 'ret': None}
-    return {'ok': True, 'exc': None, 'new': new, 'ret': r}
+        return {'ok': False, 'exc': e, 'new': {}, 'ret': None, 'lists_changed': [b for a, b in held if a != b]}
+    return {'ok': True, 'exc': None, 'new': new, 'ret': r, 'lists_changed': [b for a, b in held if a != b]}
 
 
 def commit(world, obs):
@@ -433,14 +443,28 @@ def replay_case(pp, case, monitors):
 
 
 # ---- the same action performed as a single recipe step ------------------------------------------------------------
-def apply_via_recipe(pp, subs, world, act):
+def apply_via_recipe(pp, subs, world, act, prelude=()):
     """Declare the objects the action mentions, add the action as one recipe step, bake.
-    obs['new'] holds the baked objects under their names (all declared + created ones)."""
-    op = act['op']
+    obs['new'] holds the baked objects under their names (all declared + created ones).
+    prelude: actions added as earlier steps of the same recipe (operands taken from the declared objects too)."""
     passed = []          # (fingerprint before, object) of everything handed to the recipe, slices included
     try:
         r = pp.Recipe()
         used = []
+        for pre in prelude:
+            _add_recipe_step(pp, subs, world, r, used, passed, pre)
+        _add_recipe_step(pp, subs, world, r, used, passed, act)
+        res = r.bake()
+    except env.InternalError:
+        raise
+    except Exception as e:  # noqa
+        return {'ok': False, 'exc': e, 'new': {}, 'ret': None, 'passed': passed}
+    return {'ok': True, 'exc': None, 'new': dict(res), 'ret': res, 'recipe': r, 'passed': passed}
+
+
+def _add_recipe_step(pp, subs, world, r, used, passed, act):
+    op = act['op']
+    if True:
 
         def use(name):
             if name in world and name not in used:
@@ -474,9 +498,3 @@ def apply_via_recipe(pp, subs, world, act):
             r.create_container(act['name'], act['max'], [(subs[x], q) for x, q in act['contents']] or None)
         else:
             raise env.InternalError(f"no recipe form for {op}")
-        res = r.bake()
-    except env.InternalError:
-        raise
-    except Exception as e:  # noqa
-        return {'ok': False, 'exc': e, 'new': {}, 'ret': None, 'passed': passed}
-    return {'ok': True, 'exc': None, 'new': dict(res), 'ret': res, 'recipe': r, 'passed': passed}
